@@ -204,6 +204,17 @@ func (e *Engine) storeEffect(addr ssa.Value, res *effSet) {
 			collect(pt, s, x.Field)
 			switch r := root.(type) {
 			case *ssa.IndexAddr:
+				if sl, isSl := types.Unalias(r.X.Type()).Underlying().(*types.Slice); isSl && structElems(sl.Elem()) {
+					// field of a flattened element object
+					for _, k := range keys {
+						if e.freshOrigin(r.X) {
+							res.addFresh(k)
+						} else {
+							res.keys[k] = true
+						}
+					}
+					return
+				}
 				v = r
 				continue
 			case *ssa.Alloc:
@@ -221,10 +232,16 @@ func (e *Engine) storeEffect(addr ssa.Value, res *effSet) {
 		case *ssa.IndexAddr:
 			switch t := types.Unalias(x.X.Type()).Underlying().(type) {
 			case *types.Slice:
-				if e.freshOrigin(x.X) {
-					res.addFresh("E:" + so.Sort(t.Elem()))
-				} else {
-					res.keys["E:"+so.Sort(t.Elem())] = true
+				ks := []string{"E:" + so.Sort(t.Elem())}
+				if structElems(t.Elem()) {
+					ks = flatFieldKeys(t.Elem())
+				}
+				for _, k := range ks {
+					if e.freshOrigin(x.X) {
+						res.addFresh(k)
+					} else {
+						res.keys[k] = true
+					}
 				}
 				return
 			case *types.Pointer:
@@ -290,10 +307,16 @@ func (e *Engine) callEffect(c *ssa.CallCommon, res *effSet) {
 		switch v.Name() {
 		case "append", "copy":
 			if sl, ok := types.Unalias(c.Args[0].Type()).Underlying().(*types.Slice); ok {
-				if e.freshOrigin(c.Args[0]) {
-					res.addFresh("E:" + so.Sort(sl.Elem()))
-				} else {
-					res.keys["E:"+so.Sort(sl.Elem())] = true
+				ks := []string{"E:" + so.Sort(sl.Elem())}
+				if structElems(sl.Elem()) {
+					ks = flatFieldKeys(sl.Elem())
+				}
+				for _, k := range ks {
+					if e.freshOrigin(c.Args[0]) {
+						res.addFresh(k)
+					} else {
+						res.keys[k] = true
+					}
 				}
 			}
 		case "delete":
@@ -375,7 +398,13 @@ func (e *Engine) stdlibEffects(fn *ssa.Function, res *effSet) {
 				reach(u.Elem(), true)
 			}
 		case *types.Slice:
-			res.keys["E:"+so.Sort(u.Elem())] = true
+			if structElems(u.Elem()) {
+				for _, k := range flatFieldKeys(u.Elem()) {
+					res.keys[k] = true
+				}
+			} else {
+				res.keys["E:"+so.Sort(u.Elem())] = true
+			}
 			reach(u.Elem(), true)
 		case *types.Map:
 			ks, vs := so.Sort(u.Key()), so.Sort(u.Elem())
